@@ -204,6 +204,37 @@ pub fn search(seed: u64, n: u64) {
         stats.case(&format!("ray_along_cut_step_edge A={:?} B={:?}", a, b), true);
         check_pair_x(&mut stats, &mut rng_l, &a, &b, "ray_along_cut_step_edge", 200, 200, false);
     }
+    // rectilinear operands (rectangles, L shapes) on PARITY-SEPARATED integer grids: every coordinate of the first operand is even, every
+    // coordinate of the second one odd - they never share a vertex or a line, every contact is a transversal crossing inside two edges,
+    // but the mid points of edges of one operand are often level with edges of the other one, so that classification rays run ALONG edges
+    // (and along the collinear pieces into which the collision stage has cut them) (own stream; from the round-5 change to crossing_edges)
+    let mut rng_p = Rng(seed ^ 0x9A217C01);
+    for k in 0..(10 + n / 10) {
+        let rectilinear = |rng: &mut Rng, par: f64| -> Vec<Coord2> {
+            let c = |rng: &mut Rng, lo: u64, hi: u64| 2.0 * (lo + rng.i(hi - lo + 1)) as f64 + par;
+            let (x0, y0) = (c(rng, 0, 4), c(rng, 0, 4));
+            let (x1, y1) = (x0 + 2.0 * (2 + rng.i(5)) as f64, y0 + 2.0 * (2 + rng.i(5)) as f64);
+            if rng.i(3) == 0 { vec![Coord2(x0, y0), Coord2(x0, y1), Coord2(x1, y1), Coord2(x1, y0)] } else {
+                // an L: the rectangle minus one of its corners
+                let (xm, ym) = (x0 + 2.0 * (1 + rng.i(((x1 - x0) / 2.0) as u64 - 1)) as f64, y0 + 2.0 * (1 + rng.i(((y1 - y0) / 2.0) as u64 - 1)) as f64);
+                match rng.i(4) {
+                    0 => vec![Coord2(x0, y0), Coord2(x0, y1), Coord2(xm, y1), Coord2(xm, ym), Coord2(x1, ym), Coord2(x1, y0)],
+                    1 => vec![Coord2(x0, y0), Coord2(x0, ym), Coord2(xm, ym), Coord2(xm, y1), Coord2(x1, y1), Coord2(x1, y0)],
+                    2 => vec![Coord2(x0, y0), Coord2(x0, y1), Coord2(x1, y1), Coord2(x1, ym), Coord2(xm, ym), Coord2(xm, y0)],
+                    _ => vec![Coord2(xm, y0), Coord2(xm, ym), Coord2(x0, ym), Coord2(x0, y1), Coord2(x1, y1), Coord2(x1, y0)],
+                }
+            }
+        };
+        let mut pa = rectilinear(&mut rng_p, 0.0);
+        let mut pb = rectilinear(&mut rng_p, 1.0);
+        let ra = rng_p.i(pa.len() as u64) as usize; pa.rotate_left(ra); if rng_p.b() { pa.reverse(); }
+        let rb = rng_p.i(pb.len() as u64) as usize; pb.rotate_left(rb); if rng_p.b() { pb.reverse(); }
+        let (a, b) = (vec![polygon(&pa)], vec![polygon(&pb)]);
+        let (a, b) = if k % 2 == 0 { (a, b) } else { (b, a) };
+        stats.count("pair.parity_separated_rectilinear");
+        stats.case(&format!("parity_separated_rectilinear A={:?} B={:?}", a, b), true);
+        check_pair_x(&mut stats, &mut rng_p, &a, &b, "parity_separated_rectilinear", 200, 200, false);
+    }
     for _ in 0..n {
         let pair = gen_pair(&mut rng);
         count_pair(&mut stats, &pair);
